@@ -100,7 +100,10 @@ class EnumRng:
             self.path.append(0)
         self.arity.append(len(probs))
         self.pos += 1
-        if not (probs[i] > 1e-15):
+        # branches below the rounding noise of the code's own probabilities are not real
+        # outcomes (e.g. the sliver left when conditional probabilities sum to 1 - 7e-15):
+        # they are dropped; the mass lost is far below the 1e-8 / 1e-9 comparison tolerances
+        if not (probs[i] > 1e-12):
             raise Pruned()
         self.weight *= float(probs[i])
         return i
